@@ -2,7 +2,7 @@
    about the model's effect description (the returned tree and the list of file-system operations); that the real
    commands perform exactly these operations is checked by comparing Python audit events and full snapshots with the
    model's prediction on every scenario. *)
-From MHL Require Import Model.World Proofs.BaseFacts Proofs.VerifyFacts Proofs.WorldFacts Proofs.CommitFacts.
+From MHL Require Import Model.World Proofs.BaseFacts Proofs.TreeFacts Proofs.VerifyFacts Proofs.WorldFacts Proofs.CommitFacts.
 
 (* verify (all modes), diff, verify -dh, info, info -sf, and flatten with respect to the source: tree unchanged ... *)
 Theorem C14_readers_leave_tree : forall Hb matches C cdig t,
@@ -32,3 +32,22 @@ Theorem C14_commit_confined : forall C cdig ser hs proc t sess sp,
   (forall x, In x (cs_written C cs) -> exists h, In h hs /\ fst x = lh_root h).
 Proof. exact commit_confined. Qed.
 Print Assumptions C14_commit_confined.
+
+(* the composed create commands (folder mode with every option incl. -dr, and -sf mode), on every well-formed tree and
+   for every outcome: the media tree -- contents, names, shape -- is the same afterwards; every write concerns the ascmhl
+   folder of a history of the tree; a refused run (damaged history) writes nothing at all *)
+Theorem C14_create_leaves_media_untouched : forall Hb matches C cdig ser t req no_dh dr ip ifl, wf_tree C t ->
+  let run := create_folder Hb matches C cdig ser t req no_dh dr ip ifl in
+  erase C (fst run) = erase C t /\
+  (forall hs, load C cdig t = inl hs -> ops_in_scope hs (o_ops (snd run)) /\
+              forall x, In x (o_written (snd run)) -> exists h, In h hs /\ fst x = lh_root h) /\
+  (forall e, load C cdig t = inr e -> fst run = t /\ o_ops (snd run) = [] /\ o_written (snd run) = []).
+Proof. exact create_folder_confined. Qed.
+Print Assumptions C14_create_leaves_media_untouched.
+Theorem C14_create_sf_leaves_media_untouched : forall Hb matches C cdig ser t req sf ip ifl, wf_tree C t ->
+  let run := create_sf Hb matches C cdig ser t req sf ip ifl in
+  erase C (fst run) = erase C t /\
+  (forall hs, load C cdig t = inl hs -> ops_in_scope hs (o_ops (snd run)) /\
+              forall x, In x (o_written (snd run)) -> exists h, In h hs /\ fst x = lh_root h).
+Proof. exact create_sf_confined. Qed.
+Print Assumptions C14_create_sf_leaves_media_untouched.
